@@ -17,6 +17,9 @@
 (*  "D23a" look-up of an extension base is blind to the component kind: a   *)
 (*        global element of the same name that comes first is taken and     *)
 (*        nothing is inherited                                              *)
+(*  "D30" a choice that is the whole content of a complexType (not inside   *)
+(*        a sequence or an extension) is not read: the struct has no        *)
+(*        element members                                                   *)
 (*  "D23c" a user type whose local name is that of an XSD builtin (date,    *)
 (*        string, ...) is taken for the builtin                             *)
 (* With D = {} the walk is the repaired code.                               *)
@@ -59,18 +62,22 @@ Walk(S, f, it, ps, par, inchoice, D) ==
                 ELSE Par(IF par.min = 0 \/ inchoice THEN 0 ELSE q.min, MaxMul(q.max, par.max))
   IN CASE p.k = "el" -> <<MkField(S, f, it, p, par, inchoice, D)>> \o Walk(S, f, it, Tail(ps), par, inchoice, D)
        [] p.k = "ref" -> <<MkRefField(S, f, it, p, par, inchoice, D)>> \o Walk(S, f, it, Tail(ps), par, inchoice, D)
-       [] p.k = "choice" -> Walk(S, f, it, p.ps, IF "D11" \in D THEN Par(1, "1") ELSE par, TRUE, D)
+       [] p.k = "choice" -> Walk(S, f, it, p.ps, IF "D11" \in D THEN Par(PMin(p), PMax(p))
+                                                ELSE Par(IF PMin(p) = 0 THEN 0 ELSE par.min, MaxMul(PMax(p), par.max)), TRUE, D)
                             \o Walk(S, f, it, Tail(ps), par, inchoice, D)
        [] p.k = "seq" -> IF "D10" \in D THEN Walk(S, f, it, p.ps, sub(p), FALSE, D)
                          ELSE Walk(S, f, it, p.ps, sub(p), FALSE, D) \o Walk(S, f, it, Tail(ps), par, inchoice, D)
        [] OTHER -> Walk(S, f, it, Tail(ps), par, inchoice, D)
 
-\* content = << top-level sequence >> or <<>>
-TopWalk(S, f, it, content, D) ==
+\* content = << top-level sequence >>, << top-level choice >> or <<>>
+\* inext: the content stands inside xs:extension (whose children import_sequence_node_fields walks, choice included);
+\* "D30": ComplexProps::try_from_node only looks for `sequence` among the children of complexType itself
+TopWalk(S, f, it, content, inext, D) ==
   IF content = <<>> THEN <<>>
   ELSE LET top == content[1] IN
        IF top.k = "seq" THEN Walk(S, f, it, top.ps, Par(top.min, top.max), FALSE, D)
-       ELSE <<>>     \* a choice directly under complexType is not read at all (outside the supported subset)
+       ELSE IF top.k = "choice" /\ ("D30" \notin D \/ inext) THEN Walk(S, f, it, top.ps, Par(PMin(top), PMax(top)), TRUE, D)
+       ELSE <<>>
 
 Attrs(S, f, it, as, D) == [i \in 1..Len(as) |-> MkAttr(S, f, it, as[i], D)]
 
@@ -100,9 +107,9 @@ BuiltFields(S, f, it, body, fuel, D) ==
                         ELSE BuiltFields(S, FileNamed(S, b.f), b.it, b.it, fuel - 1, D)
            own == IF "D12" \in D /\ body.content = <<>>
                   THEN <<>>      \* the extension's children are only visited when one of them is a sequence
-                  ELSE TopWalk(S, f, it, body.content, D) \o Attrs(S, f, it, body.attrs, D)
+                  ELSE TopWalk(S, f, it, body.content, TRUE, D) \o Attrs(S, f, it, body.attrs, D)
        IN inherited \o own
-  ELSE TopWalk(S, f, it, body.content, D) \o Attrs(S, f, it, body.attrs, D)
+  ELSE TopWalk(S, f, it, body.content, FALSE, D) \o Attrs(S, f, it, body.attrs, D)
 
 \* the namespace a field's prefix is bound to on the struct generated for a component of namespace own
 BindNs(fs, own, D) == [i \in 1..Len(fs) |-> IF "D14" \in D /\ fs[i].ns \notin {own, "unqualified", "?"}
